@@ -65,7 +65,7 @@ func checkC03(c *Ctx) {
 	e := &c03Env{c: c, p: p, r: r, mod: p.ModPath}
 	r.Explanation = "Decides, by path-sensitive abstract interpretation of the SSA of the crypto packages under finite scenarios (algorithm name x key/nonce/tag/message lengths x 'the authenticating primitive fails'; never by running them): " +
 		"(A1-dispatch) every name listed by SupportedSymmetric/Asymmetric/SignatureAlgorithms reaches, in both directions of its family dispatcher and of the generic Encrypt/Decrypt, a return that can carry output; " +
-		"(A1-route) on that path exactly the primitives the name stands for are reached (CBC with/without PKCS#7, GCM, the RFC 7518 CBC-HMAC constructor of the right strength, RFC 3394 wrap, ChaCha20/XChaCha20-Poly1305, RSA PKCS#1 v1.5 / OAEP / PSS with the SHA variant in the name, ECDSA, Ed25519), matching in both directions, and they receive the caller's nonce, message(+tag), associated data / OAEP label, digest and signature (roles told apart by length); " +
+		"(A1-route) on that path exactly the primitives the name stands for are reached (rsa.VerifyPSS with the salt length left to auto-detection: nil options or SaltLength 0) (CBC with/without PKCS#7, GCM, the RFC 7518 CBC-HMAC constructor of the right strength, RFC 3394 wrap, ChaCha20/XChaCha20-Poly1305, RSA PKCS#1 v1.5 / OAEP / PSS with the SHA variant in the name, ECDSA, Ed25519), matching in both directions, and they receive the caller's nonce, message(+tag), associated data / OAEP label, digest and signature (roles told apart by length); " +
 		"(S-accept) right-sized inputs are not rejected by a size guard, reach no panicking precondition of crypto/cipher, and the returned ciphertext/tag have the lengths the decrypting side insists on; " +
 		"(O-alias) no slice returned by EncryptSymmetric/DecryptSymmetric shares its backing store with a caller-supplied []byte argument (AEAD Seal/Open results are taken to share dst's storage); " +
 		"(S-key/S-nonce/S-tag/S-length/S-unsupported) a key, nonce, tag, plaintext/ciphertext length or algorithm name of the wrong size/kind makes every path return the package sentinel without output and without reaching a panicking precondition; the three ECDSA names are distinguishable on their path, and with an ECDSA key whose curve is known (P-224/256/384/521) ES256/ES384/ES512 accept exactly the key on P-256/P-384/P-521 and refuse the others with ErrKeyTypeMismatch (decided when the code consults the curve through elliptic.Curve.Params / elliptic.P*() / the jwk Crv() accessor, otherwise UNDECIDED); " +
@@ -604,6 +604,33 @@ func (e *c03Env) checkRoute(construct, pos string, run c03Run, required []string
 				}
 				if !found && msg == "" {
 					msg = "a success path never calls " + h.event
+				}
+			}
+		}
+		if msg == "" {
+			// RSASSA-PSS verification must not pin the salt length: a signature made by the matching key with
+			// another (valid) salt length — what Go emits by default, what the library emitted so far — has to verify
+			for _, ev := range o.Events {
+				if ev.Name != "crypto/rsa.VerifyPSS" || len(ev.Args) != 5 {
+					continue
+				}
+				opts := ev.Args[4]
+				switch {
+				case opts.K == c03Nil:
+				case opts.K == c03Cell && o.Mem[opts.Ref].K == c03Struct:
+					sl, ok := o.Mem[opts.Ref].M["SaltLength"]
+					switch {
+					case !ok || sl.K != c03Int:
+						if v.imprecise == "" {
+							v.imprecise = "the SaltLength of the PSSOptions handed to rsa.VerifyPSS is not a value the interpreter can derive"
+						}
+					case sl.I != 0:
+						msg = fmt.Sprintf("rsa.VerifyPSS is given PSSOptions{SaltLength: %d} (0 = PSSSaltLengthAuto, -1 = PSSSaltLengthEqualsHash): verification no longer accepts every signature the matching private key makes over the digest — valid RSASSA-PSS signatures with another salt length (Go's default, other implementations, earlier versions of this library) return (false, nil)", sl.I)
+					}
+				default:
+					if v.imprecise == "" {
+						v.imprecise = "the PSSOptions handed to rsa.VerifyPSS cannot be followed"
+					}
 				}
 			}
 		}
